@@ -206,6 +206,35 @@ def from_int(ctx, lexpr):
             r.ok("Number::from(%s) is stored as Float" % ty, f)
         else:
             r.violation(f.path, "from-float", "Number::from(%s) is stored as variant %s" % (ty, sorted(kinds, key=repr)), f.loc())
+        # the payload is the argument itself (an f32 widened exactly): evaluated on values whose decimal text, their
+        # neighbours and their f32 / f64 forms all differ
+        und = 0
+        fvals = [0.1, 0.5, -0.3, 3.4028234663852886e38, 1e-40, 16777217.0] if ty == "f32" else \
+            [0.1, -0.3, 1e300, 5e-324, 9007199254740993.0, 2.0]
+        for x in fvals:
+            n += 1
+            arg = sim.Flt(x, ty)
+            want = sim.Flt(arg.v, "f64")
+            try:
+                ps = [p for p in S.run(f, args={1: arg}) if p.end == "return"]
+            except sim.Limit:
+                ps = []
+            outs = set()
+            for p in ps:
+                xr = p.ret
+                nn = xr.fields[0] if isinstance(xr, Adt) and xr.fields and isinstance(xr.fields[0], Adt) else None
+                pay = nn.fields[0] if nn is not None and nn.fields else None
+                outs.add((nn.variant, pay) if nn is not None and isinstance(pay, sim.Flt) else ("?", None))
+            if outs == {(nv["Float"], want)}:
+                r.ok("Number::from(%r_%s) stores exactly %r" % (arg.v, ty, want.v), f)
+            elif not outs or ("?", None) in outs:
+                und += 1
+                r.note("undecided: Number::from(%r_%s) gives %s" % (arg.v, ty, sorted(outs, key=repr)))
+            else:
+                r.violation(f.path, "from-float:%r" % arg.v,
+                            "Number::from(%r as %s) stores %s, the exact value is %r: as_f64 and comparisons with the "
+                            "original float disagree" % (arg.v, ty, sorted(outs, key=repr), want.v), f.loc())
+        r.floor("float-payload-decided:%s" % ty, len(fvals) - und)
     r.floor("conversion-cases", n)
 
 
@@ -236,6 +265,7 @@ def eq_sym(ctx, lexpr):
 
     stored = [("PosInt %d" % n, num("PosInt", n), n) for n in (0, 1, 127, 128, 255, 65535, (1 << 31) - 1, I64_MAX, I64_MAX + 1, U64_MAX)]
     stored += [("NegInt %d" % n, num("NegInt", n), n) for n in (-1, -128, -(1 << 31), -(1 << 63))]
+    floats = [("Float %r" % x, num("Float", sim.Flt(x)), x) for x in (2.0, 0.0, -1.0, 0.5, 9223372036854775808.0, 1.8446744073709552e19)]
     others = [(k, Adt("value::Value", vidx[k], [Opq("payload")] * len(lexpr.adts["value::Value"]["variants"][vidx[k]]["fields"]), k))
               for k in ("Nil", "Null", "Char", "Bytes", "Vector")]
     results = {}
@@ -295,6 +325,9 @@ def eq_sym(ctx, lexpr):
                     cases.append(("%s == %d_%s" % (lab, pvv, pbase), v, pvv, n == pvv))
                 for lab, v in others + [("Bool", Adt("value::Value", vidx["Bool"], [1], "Bool"))]:
                     cases.append(("%s == %d_%s" % (lab, pvv, pbase), v, pvv, False))
+                # a float is never an integer: as_i64 / as_u64 are None for it, so the comparison is false
+                for lab, v, x in floats:
+                    cases.append(("%s == %d_%s" % (lab, pvv, pbase), v, pvv, False))
         elif pbase == "bool":
             for b in (0, 1):
                 for bv in (0, 1):
@@ -317,6 +350,13 @@ def eq_sym(ctx, lexpr):
         elif pbase in ("f32", "f64"):
             for lab, v in others + [("Bool", Adt("value::Value", vidx["Bool"], [1], "Bool"))]:
                 cases.append(("%s == float" % lab, v, Opq("float"), False))
+            # as_f64: a float unchanged, an integer converted to the nearest double
+            for pf in (2.0, 0.5, -1.0, 9223372036854775808.0):
+                pfv = sim.Flt(pf, pbase)
+                for lab, v, x in floats:
+                    cases.append(("%s == %r_%s" % (lab, pf, pbase), v, pfv, x == pfv.v))
+                for lab, v, nn in stored:
+                    cases.append(("%s == %r_%s" % (lab, pf, pbase), v, pfv, float(nn) == pfv.v))
         else:
             r.violation(f.path, "unknown-primitive", "%s compares Value with %s, for which no expectation is recorded" % (f.path, prim), f.loc())
             continue
